@@ -161,6 +161,8 @@ pub enum Out {
     Err(u8),
     Panic,
     Never,
+    /// never completes and exhausts tokio's cooperative budget on every poll
+    Hog,
 }
 #[derive(Clone, Copy, Debug)]
 pub struct Step {
@@ -182,6 +184,8 @@ pub fn parse_plan(s: &str) -> VecDeque<Step> {
             Out::Panic
         } else if o == "never" {
             Out::Never
+        } else if o == "hog" {
+            Out::Hog
         } else if let Some(k) = o.strip_prefix("err") {
             Out::Err(k.parse().unwrap_or(0))
         } else {
@@ -290,6 +294,16 @@ impl Future for InnerFut {
         if self.out == Out::Never {
             return Poll::Pending;
         }
+        if self.out == Out::Hog {
+            // burn the cooperative budget of the current task poll (bounded, in case there is none)
+            for _ in 0..4096 {
+                let mut f = Box::pin(tokio::task::consume_budget());
+                if f.as_mut().poll(cx).is_pending() {
+                    return Poll::Pending;
+                }
+            }
+            return Poll::Pending;
+        }
         if let Some(s) = self.sleep.as_mut() {
             if s.as_mut().poll(cx).is_pending() {
                 return Poll::Pending;
@@ -310,7 +324,7 @@ impl Future for InnerFut {
                 log(format!("{}inner_done {} {} panic", l, c, k));
                 panic!("scripted inner panic");
             }
-            Out::Never => unreachable!(),
+            Out::Never | Out::Hog => unreachable!(),
         }
     }
 }
@@ -391,11 +405,15 @@ struct Slot {
     fut: CallFut,
     flag: Arc<Flag>,
     polled: bool,
+    /// keep the future alive after it has resolved, until a `release` op (a caller that holds a finished
+    /// future, e.g. a pinned future in a select loop)
+    keep: bool,
 }
 
 #[derive(Default)]
 pub struct Callers {
     slots: BTreeMap<usize, Slot>,
+    kept: BTreeMap<usize, Slot>,
     pub seen: std::collections::BTreeSet<usize>,
     /// callers that made progress on a re-poll although their waker had not fired since the previous poll
     pub unwoken_progress: u64,
@@ -423,9 +441,26 @@ impl Callers {
         self.slots.keys().cloned().collect()
     }
     pub fn insert(&mut self, c: usize, fut: CallFut) {
+        self.insert_opts(c, fut, false, false)
+    }
+    /// `coop`: poll under tokio's cooperative budget (default: unconstrained, so that the budget of the
+    /// harness's own task never makes a resource spuriously pending)
+    pub fn insert_opts(&mut self, c: usize, fut: CallFut, keep: bool, coop: bool) {
         self.seen.insert(c);
-        let fut: CallFut = Box::pin(tokio::task::unconstrained(fut));
-        self.slots.insert(c, Slot { fut, flag: Arc::new(Flag::new(true)), polled: false });
+        let fut: CallFut = if coop { fut } else { Box::pin(tokio::task::unconstrained(fut)) };
+        self.slots.insert(c, Slot { fut, flag: Arc::new(Flag::new(true)), polled: false, keep });
+    }
+    pub fn release(&mut self, c: usize) {
+        if let Some(slot) = self.kept.remove(&c) {
+            log_raw(format!("#release {} {}", c, now_ms()));
+            let _ = catch_unwind(AssertUnwindSafe(move || drop(slot)));
+        }
+    }
+    pub fn release_all(&mut self) {
+        let ks: Vec<usize> = self.kept.keys().cloned().collect();
+        for c in ks {
+            self.release(c);
+        }
     }
     /// Poll caller `c` once. Logs `result c …` when it resolves (or panics).
     pub fn poll(&mut self, c: usize) -> bool {
@@ -456,7 +491,11 @@ impl Callers {
                 progressed = true;
                 // drop the future before logging the result: its drop glue belongs to this step
                 let slot = self.slots.remove(&c).unwrap();
-                drop(slot);
+                if slot.keep {
+                    self.kept.insert(c, slot);
+                } else {
+                    drop(slot);
+                }
                 log(format!("result {} {}", c, s));
             }
             Err(_) => {
@@ -514,7 +553,7 @@ pub async fn run_ops(mw: &mut dyn Mw, ops: &[String]) {
                         callers.seen.insert(c);
                         let kv = Kv::parse(&words[2..]);
                         if let Some(f) = mw.arrive(c, &kv) {
-                            callers.insert(c, f);
+                            callers.insert_opts(c, f, kv.u64("keep", 0) == 1, kv.u64("coop", 0) == 1);
                         }
                     }
                 }
@@ -533,6 +572,11 @@ pub async fn run_ops(mw: &mut dyn Mw, ops: &[String]) {
                     if !callers.drop_caller(c) {
                         log_raw("noop".into());
                     }
+                }
+            }
+            "release" => {
+                if let Some(c) = arg_c {
+                    callers.release(c);
                 }
             }
             "dropall" => {
@@ -582,6 +626,7 @@ pub async fn run_ops(mw: &mut dyn Mw, ops: &[String]) {
     for c in live {
         callers.drop_caller(c);
     }
+    callers.release_all();
     if callers.unwoken_progress > 0 {
         log_raw(format!("#unwoken_progress {}", callers.unwoken_progress));
     }
